@@ -411,6 +411,52 @@ class ClosureTerms(Terms):
         return r
 
 
+class FnTerms(ClosureTerms):
+    """term trees of a function item applied to the given argument terms (parameters are locals 1..n, no environment)"""
+
+    def __init__(self, body, params):
+        Terms.__init__(self, body)
+        self.subst = {1 + i: t for i, t in enumerate(params)}
+
+
+def apply_callable(prog, f, params):
+    """value of `f(params..)` for a closure aggregate or function item with exactly one loop free path, as a term of the
+    calling body, else None"""
+    try:
+        paths = closure_paths(prog, f, params, limit=4)
+    except (KeyError, TypeError):
+        return None
+    if not paths or len(paths) != 1 or paths[0][0]:
+        return None
+    return paths[0][1]
+
+
+ARRAY_MAP = r"^(std|core)::array::<impl \[T; N\]>::map$"
+
+
+def pointwise(prog, t, depth=0):
+    """`arr.map(f)[k]` is `f(arr[k])` (f pure: its value is what the caller goes on to pin down); a direct call of a crate
+    function with one loop free path is its returned value.  Applied at the root of t repeatedly; t when nothing applies."""
+    if depth > 6:
+        return t
+    u = uncell(t)
+    k = None
+    if u[0] == "idx" and isinstance(u[2], int) and u[2] >= 0:
+        k = u[2]
+    elif u[0] == "idxv" and uncell(u[2])[0] == "int":
+        k = uncell(u[2])[1]
+    if k is not None and is_call(u[1], ARRAY_MAP) and len(uncell(u[1])[2]) == 2:
+        arr, f = uncell(u[1])[2]
+        r = apply_callable(prog, f, [pointwise(prog, ("idx", arr, k), depth + 1)])
+        if r is not None:
+            return pointwise(prog, r, depth + 1)
+    if u[0] == "call" and prog.body(u[1]) is not None and not re.search(r"^<.* as .*>::", u[1]):
+        r = apply_callable(prog, ("fn", u[1]), list(u[2]))
+        if r is not None:
+            return pointwise(prog, r, depth + 1)
+    return t
+
+
 def closure_of(prog, t):
     """closure aggregate term -> its body, else None"""
     t = uncell(t)
@@ -424,10 +470,17 @@ def closure_paths(prog, clo, params, limit=64):
     conditions = [(discriminant term, value as int | None for `otherwise`, values excluded by `otherwise`)].
     None when the closure is not understood (loops, more than `limit` paths, several creating-site shapes)."""
     clo = uncell(clo)
-    cb = closure_of(prog, clo)
-    if cb is None or len(params) != cb.arg_count - 1:
-        return None
-    tm = ClosureTerms(cb, clo, params)
+    if clo[0] == "fn":
+        # a function item used as the callable (`.map(helper)`): same thing without an environment
+        cb = prog.body(clo[1])
+        if cb is None or len(params) != cb.arg_count:
+            return None
+        tm = FnTerms(cb, params)
+    else:
+        cb = closure_of(prog, clo)
+        if cb is None or len(params) != cb.arg_count - 1:
+            return None
+        tm = ClosureTerms(cb, clo, params)
     out = []
     # (bb, conditions, last definition of _0, visited)
     st = [(0, (), None, frozenset())]
@@ -1808,7 +1861,8 @@ def palette(ctx, a, quant):
             ctx.instance("PALETTE", {"channel": role, "source": None})
             continue
         occ, tk = got
-        t = tk[1]
+        # the scaled value, seen through `to_rgb().map(f)[k]` / `helper(channel)` (closure or function item, one path)
+        t = pointwise(ctx.prog, tk[1])
         shape = None
         chan = None
         div = None
